@@ -503,3 +503,229 @@ def c10_h(ctx):
         ctx.undecided('gradient outside the differentiable fragment: {}'.format(e))
     ctx.check(ok, glik, 'gradient = d/dx log Phi((threshold - mean) / sd)',
               'factor * pdf / cdf equals the chain-rule derivative', why, fn=glik, node=gs[0])
+
+
+def _fast_fns(ctx):
+    gp = ctx.cls(GP)
+    pred = ctx.own_method(gp, 'predict')
+    grads = ctx.own_method(gp, 'predictive_gradients')
+    cache = [m for m in gp.methods.values()
+             if any(isinstance(s, ast.Assign) and ctx.term(m, s.value) == ('const', True)
+                    for (s, t, k) in ctx.stores(m, 'self._rbf_is_cached'))]
+    if len(cache) != 1:
+        raise AnchorMissing('the RBF cache function')
+    return gp, pred, grads, cache[0]
+
+
+@obligation('C10-i', 'T8 T12', 'the fast path honours `noiseless` like the regular path; cached '
+            'scalars are taken from an element of the GPy parameter', floor=4,
+            necessary='a variance that always includes the noise differs from predict_noiseless; '
+                      'float() of a one-element array raises TypeError with the installed numpy')
+def c10_i(ctx):
+    ctx.fact('numpy >= 2.x: float(a) raises TypeError unless a.ndim == 0; GPy Param objects '
+             '(kern.*.variance, lengthscale, likelihood.variance) are 1-d arrays')
+    gp, pred, grads, cache = _fast_fns(ctx)
+    ex = ctx.ex(pred)
+    # the noise variance is added on the fast path only under `not noiseless`
+    adds = [n for n in own_nodes(pred.node)
+            if isinstance(n, (ast.AugAssign, ast.Assign)) and
+            contains(ex.raw(n.value), 'self._rbf_noisevar')]
+    if not adds:
+        raise AnchorMissing('the fast path does not mention the cached noise variance')
+    p_nl = [p for p in pred.all_params if p == 'noiseless']
+    if not p_nl:
+        raise AnchorMissing('predict has no noiseless parameter')
+    for n in adds:
+        g = ctx.guards(pred, n)
+        ok = any((not pol) and t in (('name', 'noiseless'), ('param', 'noiseless'))
+                 for (t, pol, _) in g) or \
+            any(pol and match(t, pattern('not noiseless')) is not None for (t, pol, _) in g)
+        ctx.check(ok, pred, 'noise variance added only when not noiseless',
+                  'if not noiseless: var += noise',
+                  'the accelerated prediction adds the noise variance whatever `noiseless` is: '
+                  'predict(x, noiseless=True) differs from GPy predict_noiseless', fn=pred, node=n)
+    # slow path: noiseless -> predict_noiseless, else predict
+    for (call, want) in (('self._gp.predict_noiseless(_)', True), ('self._gp.predict(_)', False)):
+        cs = ctx.calls(pred, call)
+        ok = bool(cs) and all(any(pol == want and t in (('name', 'noiseless'),
+                                                         ('param', 'noiseless'))
+                                  for (t, pol, _) in ctx.guards(pred, c)) for c in cs)
+        ctx.check(ok, pred, 'regular path: {} under noiseless == {}'.format(call, want), '',
+                  'the regular path does not choose {} by the noiseless flag'.format(call),
+                  fn=pred, node=cs[0] if cs else pred.node)
+    # scalar conversions
+    exc = ctx.ex(cache)
+    n_f = 0
+    for c in ctx.calls(cache):
+        if not (isinstance(c.func, ast.Name) and c.func.id == 'float' and len(c.args) == 1):
+            continue
+        n_f += 1
+        a = c.args[0]
+        ok = isinstance(a, ast.Subscript) or (
+            isinstance(a, ast.Call) and isinstance(a.func, ast.Attribute) and
+            a.func.attr in ('item', 'squeeze')) or (
+            isinstance(a, ast.Call) and exc.raw(a.func) in (('global', 'numpy.squeeze'),))
+        ctx.check(ok, cache, 'scalar taken from an element', 'float(param[0])',
+                  'float({}) converts a one-element array: TypeError with the installed numpy, '
+                  'the accelerated path cannot be entered'.format(src(a)), fn=cache, node=c)
+    if n_f < 3:
+        ctx.undecided('expected at least three scalar conversions in the cache function')
+
+
+def _scalarise(t):
+    """Specialise an array formula to input_dim = 1, one training point, one query point:
+    transposes, axis sums and added axes are identities, dot is a product, solve is a division.
+    An identity between array formulas implies the identity between their specialisations."""
+    if not isinstance(t, tuple) or not t or not isinstance(t[0], str):
+        return t
+    k = t[0]
+    if k == 'call':
+        f, args, kw = t[1], tuple(_scalarise(a) for a in t[2]), t[3]
+        if f[0] == 'attr' and f[2] == 'dot' and len(args) == 1:
+            return ('binop', '*', _scalarise(f[1]), args[0])
+        if f in (('global', 'numpy.dot'), ('global', 'numpy.matmul')) and len(args) == 2:
+            return ('binop', '*', args[0], args[1])
+        if f == ('global', 'numpy.transpose') and len(args) == 1:
+            return args[0]
+        if f == ('global', 'numpy.sum') and len(args) >= 1 and (len(args) == 2 or
+                                                               dict(kw).get('axis')):
+            return args[0]
+        if f == ('global', 'numpy.linalg.solve') and len(args) == 2:
+            return ('binop', '/', args[1], args[0])
+        if f[0] == 'attr':
+            f = ('attr', _scalarise(f[1]), f[2])
+        return ('call', f, args, kw)
+    if k == 'binop':
+        return ('binop', t[1], _scalarise(t[2]), _scalarise(t[3]))
+    if k == 'unary':
+        return ('unary', t[1], _scalarise(t[2]))
+    if k == 'sub':
+        return ('sub', _scalarise(t[1]), t[2])
+    if k == 'phi':
+        return ('phi', tuple(_scalarise(a) for a in t[1]))
+    if k == 'tuple':
+        return ('tuple', tuple(_scalarise(a) for a in t[1]))
+    return t
+
+
+@obligation('C10-j', 'T14', 'fast path: predictive gradients are the derivatives of the fast-path '
+            'mean and variance (scalar specialisation)', floor=2,
+            necessary='for input_dim = 1 and one evidence point the array formulas are scalar '
+                      'formulas; if the gradient is not the derivative there, it is not in general')
+def c10_j(ctx):
+    from .. import symdiff as sd
+    from ..ratfun import Rat, Unsupported
+    ctx.fact('GPy posterior: woodbury_inv = (L L^T)^-1 with L = woodbury_chol; RBF k(x, x\') = '
+             's2 exp(-|x - x\'|^2 / (2 l^2))')
+    gp, pred, grads, cache = _fast_fns(ctx)
+    exp_, exg, exc = ctx.ex(pred), ctx.ex(grads), ctx.ex(cache)
+    cached = {}
+    for s in own_nodes(cache.node):
+        if isinstance(s, ast.Assign) and isinstance(s.targets[0], ast.Attribute) and \
+                s.targets[0].attr.startswith('_rbf_'):
+            cached[s.targets[0].attr] = exc.term(s.value)
+    alg = sd.Algebra()
+    alg.deriv['x'] = Rat.const(1)
+    X = alg.const('X')
+    L = alg.const('L')
+
+    def leaf(t):
+        if t == ('param', pred.params[1]) or t == ('param', grads.params[1]):
+            return Rat.sym('x')
+        if t == pattern_term('self._gp.X'):
+            return X
+        if t[0] == 'attr' and t[1] in (('param', 'self'), ('name', 'self')) and \
+                t[2].startswith('_rbf_'):
+            name = t[2]
+            if 'chol' in name:
+                return L
+            if 'woodbury_inv' in name:
+                return Rat.const(1) / (L * L)
+            return alg.const(name)      # cached quantities do not depend on the query point
+        return None
+
+    def fast_alt(t, marker):
+        alts = [a for a in (_phi_alts_(t)) if contains(a, marker)]
+        return alts
+    rp = [r for r in returns(pred) if contains(exp_.term(r.value), 'self._rbf_woodbury')]
+    rg = [r for r in returns(grads) if contains(exg.term(r.value), 'self._rbf_woodbury')]
+    if len(rp) != 1 or len(rg) != 1:
+        ctx.undecided('fast-path returns not identified ({} / {})'.format(len(rp), len(rg)))
+    tp, tg = exp_.term(rp[0].value), exg.term(rg[0].value)
+    if tp[0] != 'tuple' or tg[0] != 'tuple' or len(tp[1]) != 2 or len(tg[1]) != 2:
+        ctx.undecided('fast-path returns are not (mean, var) / (grad_mean, grad_var) tuples')
+    for i, label in ((0, 'mean'), (1, 'variance')):
+        fa = fast_alt(tp[1][i], 'self._rbf_woodbury' if i == 0 else 'self._rbf_woodbury_inv')
+        ga = fast_alt(tg[1][i], 'self._rbf_woodbury' if i == 0 else 'self._rbf_woodbury_chol')
+        if not fa or not ga:
+            ctx.undecided('fast-path {} formula not found'.format(label))
+        try:
+            dF = [alg.D(sd.convert(_scalarise(a), alg, leaf)) for a in fa]
+            G = [sd.convert(_scalarise(a), alg, leaf) for a in ga]
+        except Unsupported as e:
+            ctx.undecided('fast-path {} outside the differentiable fragment: {}'.format(label, e))
+        ok = all(any(alg.same(g, d) for d in dF) for g in G) and \
+            all(any(alg.same(g, d) for g in G) for d in dF)
+        ctx.check(ok, grads, 'fast-path gradient of the {} = derivative of the fast-path {}'
+                  .format(label, label), 'd/dx in the scalar specialisation',
+                  'the accelerated gradient of the {} is not the derivative of the accelerated '
+                  '{} (already for input_dim = 1 and one evidence point)'.format(label, label),
+                  fn=grads, node=rg[0])
+    # the fast-path mean and variance are the GP equations of the RBF + bias kernel
+    def cleaf(t):
+        r = leaf(t)
+        if r is not None:
+            return r
+        # float(<GPy parameter>[0]) -> a constant named after the parameter
+        if t[0] == 'call' and t[1] in (('global', 'builtins.float'), ('name', 'float'),
+                                       ('global', 'float')) and len(t[2]) == 1:
+            a = t[2][0]
+            while a[0] == 'sub':
+                a = a[1]
+            return alg.const(show(a))
+        return None
+    try:
+        x2 = sd.convert(_scalarise(cached['_rbf_x2sum']), alg, cleaf)
+        fac = sd.convert(_scalarise(cached['_rbf_factor']), alg, cleaf)
+    except (KeyError, Unsupported) as e:
+        ctx.undecided('cached RBF quantities not in the expected form: {}'.format(e))
+    ctx.check(alg.same(x2, X * X), cache, 'cached squared norms of the evidence',
+              'sum(X**2, 1)', 'the cached squared norm is not sum(X**2) over the input '
+              'dimensions', fn=cache, node=cache.node)
+    ell = [sy for sy in fac.symbols() if 'lengthscale' in sy]
+    okf = len(ell) == 1 and alg.same(fac, Rat.const(-1) / (Rat.const(2) * Rat.sym(ell[0]) *
+                                                       Rat.sym(ell[0])))
+    ctx.check(okf, cache, 'cached exponent factor', '-1 / (2 lengthscale^2)',
+              'the cached RBF factor is not -0.5 / lengthscale**2', fn=cache, node=cache.node)
+    sig = alg.const('_rbf_var')
+    bias = alg.const('_rbf_bias')
+    noise = alg.const('_rbf_noisevar')
+    w = alg.const('_rbf_woodbury')
+    xs = Rat.sym('x')
+    r2 = xs * xs + alg.const('_rbf_x2sum') - Rat.const(2) * xs * X
+    k_rbf = sig * alg.exp(r2 * alg.const('_rbf_factor'))
+    kx = k_rbf + bias
+    want_mean = kx * w
+    want_var = sig + bias - kx * kx / (L * L)
+    try:
+        got_mean = [sd.convert(_scalarise(a), alg, leaf)
+                    for a in fast_alt(tp[1][0], 'self._rbf_woodbury')]
+        got_var = [sd.convert(_scalarise(a), alg, leaf)
+                   for a in fast_alt(tp[1][1], 'self._rbf_woodbury_inv')]
+    except Unsupported as e:
+        ctx.undecided('fast-path prediction outside the fragment: {}'.format(e))
+    ctx.check(all(alg.same(g, want_mean) for g in got_mean), pred,
+              'fast-path mean = k(x, X) . woodbury_vector',
+              '(s2 exp(-|x-X|^2 / 2l^2) + bias) . alpha',
+              'the accelerated mean is not (rbf + bias kernel row) times the Woodbury vector',
+              fn=pred, node=rp[0])
+    okv = all(alg.same(g, want_var) or alg.same(g, want_var + noise) for g in got_var) and \
+        any(alg.same(g, want_var + noise) for g in got_var)
+    ctx.check(okv, pred, 'fast-path variance = k(x,x) - k K^-1 k^T (+ noise)',
+              's2 + bias - k Winv k^T, plus the noise variance unless noiseless',
+              'the accelerated variance is not k(x,x) - k(x,X) Winv k(X,x) (+ noise)',
+              fn=pred, node=rp[0])
+
+
+def _phi_alts_(t):
+    return list(t[1]) if t[0] == 'phi' else [t]
